@@ -69,3 +69,44 @@ def texvm_consistency(ctx, which):
         tlc_model(ctx, "TexVM.agrees_with_TexMacro", "MC_TexVM_Macro", f"MC_TexVM_Macro{sfx}.cfg",
                   workers=6 if ctx.quick else 14, coverage=False, timeout=3000)
         tlc_expect_refuted("MC_TexVM_Macro", "NEG_TexVM_Macro_vacuity.cfg", "no two-parameter call binds", workers=3)
+
+
+def repo_root():
+    """The repository the harness is built against (harness/Cargo.toml's path dependencies point into it)."""
+    import re
+    m = re.search(r'path = "([^"]+)/crates/', (VERIF / "harness" / "Cargo.toml").read_text())
+    return Path(m.group(1)) if m else Path("/repo")
+
+
+def texvm_suite(ctx):
+    """The repository's own test inputs as traces: every one-line raw string with a backslash in the test
+    modules of texlang, texlang-stdlib and texlang-testing is offered to `vh tv-suite`, which keeps those inside
+    the model's vocabulary, runs them on the VM and records them like generated programs."""
+    import re
+    root = repo_root()
+    snips = set()
+    files = sorted(list((root / "crates/texlang-stdlib/src").glob("*.rs")) + list((root / "crates/texlang/src").rglob("*.rs"))
+                   + list((root / "crates/texlang-testing/src").glob("*.rs")))
+    for f in files:
+        src = f.read_text(errors="replace")
+        for m in re.finditer(r'r#"(.*?)"#|r"([^"]*)"', src, re.S):
+            t = m.group(1) if m.group(1) is not None else m.group(2)
+            if "\\" in t and "\n" not in t and len(t) < 300 and not re.search(r"\\[^a-zA-Z]", t) \
+                    and not re.search(r"[~%^`\"']", t) and all(ord(c) < 127 for c in t):
+                snips.add(t)
+    if len(snips) < 50:
+        raise ToolError(f"only {len(snips)} test snippets found under {root}")
+    inp = ctx.work / "snips.json"
+    inp.write_text(json.dumps(sorted(snips)))
+    ev = ctx.work / "suite.ndjson"
+    vh(["tv-suite", f"in={inp}", f"out={ev}"])
+    nev, bad = validate_calls(ctx, "Trace_TexVM", "Trace_TexVM.cfg", ev, parts=1)
+
+    def desc(e, v):
+        w = v.get("want", {})
+        return (f"test input of the repository ({v['key']}) {e['src']!r}: VM delivered {e['out']} errat={e['errat']} "
+                f"fatal={e['fatal']} finals={e['finals']}; TexVM says {w.get('out')} err={w.get('err')!r} "
+                f"registers={w.get('cnt')}")
+    nskip = judge_calls(ctx, bad, "Trace_TexVM", {}, desc)
+    ctx.add_bound("TexVM.repository_test_inputs", nev - nskip, nev - nskip, snippets_found=len(snips),
+                  skipped_outside_model=nskip)
